@@ -131,6 +131,12 @@ def run(ctx, chk):
         doc_words = [int.from_bytes(MAGIC_DOC[0:4], 'big'), int.from_bytes(MAGIC_DOC[4:8], 'big')]
         chk.ob('C16.V1', 'magic:constant-matches-doc', words == doc_words, 'clock-bound-shm/src/shm_header.rs',
                'SHM_MAGIC = %s, PROTOCOL.md = %s' % ([hex(w) for w in words], [hex(w) for w in doc_words]))
+        # what the open path actually compares the magic field with: both documented words, nothing else
+        seen = getattr(m, 'magic_compared', None) if m.ok else None
+        if seen is not None:
+            chk.ob('C16.V1', 'magic:open-compares-both-documented-words', seen == [tuple(doc_words)], 'clock-bound-shm/src/shm_header.rs',
+                   'the open path compares the magic field with %s (documented: %s)' % (
+                       [[hex(w) for w in ws] for ws in seen], [hex(w) for w in doc_words]))
     else:
         chk.missing('C16.V1', 'SHM_MAGIC constant')
     # ---- V5 segment size: the length the daemon maps on every successful start-up path (whatever helper computes it)
